@@ -58,6 +58,13 @@ ROWS = [
     ("config::base::*", "unwrap", ["call:RwLock::<T>::read"], "poison-class after the configuration became process-wide", True),
     ("system_metric::get_process_memory_stat", "unwrap", ["call:process", "static:SYSTEM"], "System::process(pid) for the live current pid right after refresh_process(pid) is Some", True),
     ("system_metric::get_process_cpu_stat", "unwrap", ["call:process", "static:SYSTEM"], "as above", True),
+    # ---- metric log search path (core-super)
+    ("log::metric::searcher::DefaultMetricSearcher::search_offset_and_read", "index", ["call:list_metric_files"], "i ranges over file_no..filenames.len(): inside the vector returned by list_metric_files", True),
+    ("log::metric::searcher::DefaultMetricSearcher::search_offset_and_read", "unwrap", ["call:to_str"], "every listed path is base_dir (built from a String) joined with a name that passed name.to_str() == Some", True),
+    ("log::metric::list_metric_files_conditional", "unwrap", ["call:to_str", "param:file_pattern"], "the pattern path is built from a String (PathBuf::from(String))", True),
+    ("log::metric::filename_comparator", "unwrap", ["call:file_name"], "compared paths are base_dir.join(name): they have a final component", True),
+    ("log::metric::filename_comparator", "unwrap", ["call:to_str"], "names were pushed only on the name.to_str() == Some branch", True),
+    ("log::metric::filename_comparator", "index", ["call:split"], "names passed filename_matches for one base filename: <svc>-metrics.log[.pidN].<date>[.n] has >= 3 (>= 4 with a pid part, for both names alike) dot-separated parts", True),
     # ---- exporter (core-super): lazy_static initialisers
     ("exporter::*", "unwrap", ["call:new"], "prometheus metric constructed from literal, distinct name/help/labels inside a lazy_static initialiser (runs once)", True),
     ("exporter::*", "unwrap", ["call:register"], "registered once per process from a lazy_static initialiser", True),
